@@ -43,7 +43,8 @@ def forcing_vars(times_sec, u, v, extra=None, scale=None, offsets=None):
         V[name] = (("ocean_time", "s_rho", "eta_rho", "xi_rho"), f, {})
     for name, sf in (scale or {}).items():
         V[name][2]["scale_factor"] = sf
-        V[name][2]["add_offset"] = (offsets or {}).get(name, 0)
+        if offsets is not False and (offsets or {}).get(name, 0) is not None:  # offsets=False / {name: None}: no add_offset attribute at all (legal CF)
+            V[name][2]["add_offset"] = (offsets or {}).get(name, 0)
     return dims, V
 
 
